@@ -186,11 +186,17 @@ func evalC09(c c09Case, o *Obs) error {
 	if c.K == 50 {
 		o.Class("C09:k=50")
 	}
+	shared := make([]byte, 2048) // one buffer carries every item handed to the filter
 	for step, op := range c.Ops {
 		where := fmt.Sprintf("filter(len=%d,k=%d,tweak=%d) step %d %s(%x,%d)", c.Len, c.K, c.Tweak, step, op.Op, []byte(op.Data), op.Index)
+		if (op.Op == "add" || op.Op == "matches") && len(op.Data) <= len(shared) {
+			n := copy(shared, op.Data)
+			op.Data = shared[:n:n]
+		}
 		switch op.Op {
 		case "add":
 			f.Add(op.Data)
+			op.Data = append(HexBytes{}, op.Data...) // the model and the bookkeeping keep their own copy
 			m.add(op.Data)
 			if m.loaded {
 				inserted = append(inserted, op.Data)
